@@ -203,6 +203,36 @@ pub fn run(rep: &mut Report, thorough: bool) {
                 &mut rep.sink,
             );
             rep.stage(&format!("payload-shapes-tcp-{}", tag), "the same payloads behind [SYN, PSH|ACK] x {v4,v6}", ns * 2, t0);
+            // LATER messages of a connection that was identified as STUN: every message type word of
+            // a small alphabet (request / indication / success / error class, binding and other
+            // methods, stray high bits) x attributes that would move a binding answer x both header
+            // forms - answered or not, the segment that leaves mirrors the segment that came
+            let types: Vec<u16> = vec![0x0001, 0x0011, 0x0101, 0x0111, 0x0002, 0x0003, 0x0012, 0x0102, 0x0004, 0x0021, 0x0801, 0x2001, 0x4001, 0x8001, 0xc001, 0x0000, 0xffff];
+            let attrs: Vec<Vec<u8>> = vec![vec![], stun_attr(3, &[0, 0, 0, 2]), stun_attr(3, &[0, 0, 0, 4]), stun_attr(3, &[0, 0, 0, 6]), [stun_attr(0x8022, b"abcd"), stun_attr(3, &[0, 0, 0, 2])].concat(), [stun_attr(3, &[0, 0, 0, 2]), stun_attr(0x8022, &[b'q'; 252])].concat()];
+            let first = stun_magic(&stun_attr(0x8022, &[b'x'; 256]), &ID12);
+            let dims = [2u64, 2, attrs.len() as u64, types.len() as u64];
+            let t0 = std::time::Instant::now();
+            let opts = RunOpts::new(&format!("stun-tcp-later-messages-{}", tag)).stateful().chunk(128);
+            engine::run(
+                &cfg,
+                product(&dims),
+                &opts,
+                |i| {
+                    let d = unrank(i, &dims);
+                    let f = flow(d[0] == 1, 40002, 3478);
+                    let c = cookie_guess(key, &f.cip, &f.sip, f.cport, f.sport);
+                    let mut m = if d[1] == 0 { stun_magic(&attrs[d[2] as usize], &ID12) } else { stun_classic(&attrs[d[2] as usize], &ID16) };
+                    m[0..2].copy_from_slice(&types[d[3] as usize].to_be_bytes());
+                    vec![
+                        Cmd::Frame(f.tcp(100, 0, F_SYN, b"")),
+                        Cmd::Frame(f.tcp(101, c.wrapping_add(1), F_PSH | F_ACK, &first)),
+                        Cmd::Frame(f.tcp(101 + first.len() as u32, c.wrapping_add(1), F_PSH | F_ACK, &m)),
+                    ]
+                },
+                |_it: &Item, _s: &mut Sink| {},
+                &mut rep.sink,
+            );
+            rep.stage(&format!("stun-tcp-later-messages-{}", tag), "[SYN, PSH|ACK(STUN request that identifies the connection), PSH|ACK(message)] x 17 message type words x 6 attribute lists (CHANGE-REQUEST port / address / both, behind and before other attributes) x {magic, classic} x {v4,v6}", product(&dims), t0);
         }
     }
     // a self-IP list that contains group addresses next to unicast ones: requests to the group are
